@@ -270,17 +270,36 @@ func resultChannelUnbuffered(c *core.Ctx, rule string) {
 			}
 			// the channel the senders send on
 			sentOn := false
+			type scope struct {
+				fn   *ssa.Function
+				bind func(ssa.Value) ssa.Value
+			}
+			var scopes []scope
 			for _, f := range facts.WithAnon(rrc) {
-				for _, fb := range f.Blocks {
+				scopes = append(scopes, scope{f, func(v ssa.Value) ssa.Value { return v }})
+			}
+			// senders that are functions of the module, spawned with the channel as an argument
+			for _, ci := range facts.CallsIn(rrc) {
+				if g, isGo := ci.(*ssa.Go); isGo {
+					if _, isMC := facts.Resolve(g.Call.Value).(*ssa.MakeClosure); isMC {
+						continue
+					}
+					if f, bind := spawnedFunc(g); f != nil {
+						scopes = append(scopes, scope{f, bind})
+					}
+				}
+			}
+			for _, sc := range scopes {
+				for _, fb := range sc.fn.Blocks {
 					for _, fin := range fb.Instrs {
 						switch x := fin.(type) {
 						case *ssa.Send:
-							if facts.ResolveFree(x.Chan) == ssa.Value(mk) {
+							if facts.ResolveFree(sc.bind(x.Chan)) == ssa.Value(mk) {
 								sentOn = true
 							}
 						case *ssa.Select:
 							for _, st := range x.States {
-								if st.Dir == types.SendOnly && facts.ResolveFree(st.Chan) == ssa.Value(mk) {
+								if st.Dir == types.SendOnly && facts.ResolveFree(sc.bind(st.Chan)) == ssa.Value(mk) {
 									sentOn = true
 								}
 							}
